@@ -39,3 +39,8 @@ Print Assumptions C01_tab_keyword_reads_its_own_field.
 Print Assumptions C01_tab_keyword_table_complete.
 Print Assumptions C01_tab_operator_spellings.
 Print Assumptions C01_tab_source_kw.
+
+Theorem C01_tab_to_pep440_is_model : forall o m, to_mop o = Some m ->
+  to_pep440_operator o = option_map vop_name (MarkerParse.vop_of m).
+Proof. exact to_pep440_is_model. Qed.
+Print Assumptions C01_tab_to_pep440_is_model.
